@@ -262,10 +262,32 @@ def c10_d(ctx):
     pr = ctx.own_method(gp, 'predict')
     resets = [s for (s, t, k) in ctx.stores(pr, 'self._rbf_is_cached')
               if isinstance(s, ast.Assign) and ctx.term(pr, s.value) == ('const', False)]
-    ok = bool(resets) and all(any(pol is False and contains(t, 'self.is_sampling')
-                                  for (t, pol, _) in ctx.guards(pr, s)) for s in resets)
-    ctx.check(ok, pr, 'slow path invalidates the cache', '_rbf_is_cached = False',
-              'the slow path of predict does not invalidate the RBF cache', fn=pr,
+    ok_lazy = bool(resets) and all(any(pol is False and contains(t, 'self.is_sampling')
+                                       for (t, pol, _) in ctx.guards(pr, s)) for s in resets)
+    # alternative discipline: every method that changes the GP (new instance, optimised
+    # hyper-parameters) invalidates the cache itself
+    changers = []
+    for m in gp.methods.values():
+        if m.name == '__init__':
+            continue
+        exm = ctx.ex(m)
+        ch = [s for (s, t, k) in ctx.stores(m, 'self._gp') if isinstance(s, ast.Assign)] + \
+            [c for c in ctx.calls(m, 'self._gp.optimize(*_)')]
+        if ch:
+            changers.append((m, ch))
+    ok_eager = bool(changers)
+    for (m, ch) in changers:
+        rs = [s for (s, t, k) in ctx.stores(m, 'self._rbf_is_cached')
+              if isinstance(s, ast.Assign) and ctx.term(m, s.value) == ('const', False)]
+        if not rs or not all(ctx.must_follow(m, c, rs) or
+                             cfg_of(m).must_pass([ctx.node(m, r) for r in rs]) for c in ch):
+            ok_eager = False
+    ctx.check(ok_lazy or ok_eager, pr, 'cache invalidated when the GP changes',
+              'slow path of predict resets _rbf_is_cached' if ok_lazy else
+              'every method that changes the GP resets _rbf_is_cached',
+              'the RBF cache is neither reset on the slow path of predict nor by every method '
+              'that changes the GP ({}): a stale cache can be read'.format(
+                  [m.name for (m, ch) in changers]), fn=pr,
               node=resets[0] if resets else pr.node)
     init = ctx.own_method(gp, '__init__')
     st = [s for (s, t, k) in ctx.stores(init, 'self._rbf_is_cached')
